@@ -485,8 +485,8 @@ M('r8-line-type-changed-under-reader', ['C08'], Y23 + 'f8889.py', "BooleanField(
   'line 1 becomes a text line; the limit helper still tests it for truth, so the self-only limit is never applied (seed C08-K)')
 M('k11i-lenient-decoding', ['C11', 'C13', 'C14', 'C20'], IN, "            with open(input_config) as config_file:", "            with open(input_config, encoding='utf-8', errors='ignore') as config_file:", 'K11i',
   'undecodable bytes are dropped before validation (seed C11-K)')
-M('k11i-explicit-utf8', ['C11', 'C13', 'C14', 'C20'], IN, "            with open(input_config) as config_file:", "            with open(input_config, encoding='utf-8') as config_file:", None,
-  'an explicit encoding, decoded strictly', expect='silent')
+M('k11i-explicit-utf8', ['C11', 'C13', 'C14', 'C20'], IN, "            with open(input_config) as config_file:", "            with open(input_config, encoding='utf-8') as config_file:", 'K11i',
+  'the read is pinned to UTF-8 while the write-back keeps the platform default: the mirror image of seed C13-R (the twin with both sides pinned is k11i-both-pinned-utf8)')
 M('r17-description-in-allow-empty', ['C17', 'C11'], Y22 + 'f1099_r.py', "EnumInput('belongs_to', enum.taxpayer_or_spouse, description=\"To whom was this distribution paid?\"),",
   "EnumInput('belongs_to', enum.taxpayer_or_spouse, \"To whom was this distribution paid?\"),", 'R17.8', 'the description lands in allow_empty: blank answers become valid (seed C11-L)')
 M('k34-fromkeys-shared-list', ['C01', 'C13'], S, "        unmet_dependencies = {}\n        for dep in dependency_tracker.unmet_dependencies():\n            dependents = [f.name() for f in dependency_tracker.unmet_dependents(dep)]\n            unmet_dependencies[dep] = dependents\n",
